@@ -49,37 +49,51 @@ def find_tls_objects(ctx: Ctx) -> List[TlsObject]:
     return out
 
 
-def _tls_attr_accesses(ctx: Ctx, tls: TlsObject):
-    """Yield (FuncInfo|None, Attribute node) for every ``<...>.<tls.name>.<attr>`` access in the package."""
+def _denotes_tls(ctx: Ctx, m, v: ast.AST, tls: TlsObject, at: ast.AST) -> bool:
+    """Does expression ``v`` (evaluated at node ``at``) denote the thread-local object itself?"""
     prog = ctx.prog
-    for m in prog.pkg_modules():
-        for n in ast.walk(m.tree):
-            if not isinstance(n, ast.Attribute):
-                continue
-            v = n.value
-            hit = False
-            if isinstance(v, ast.Attribute) and v.attr == tls.name:
-                base = v.value
-                ch = attr_chain(base)
-                encl = m.class_of_node(n)
-                if ch is not None:
-                    if ch[-1] in ("self", "cls") and encl is not None and tls.owner is not None and \
-                            tls.owner in prog.mro(encl):
-                        hit = True
-                    elif tls.owner is not None and ch[-1] == tls.owner.name:
-                        hit = True
-                    else:
-                        r = prog.resolve_class_expr(m, base, encl)
-                        hit = isinstance(r, ClassInfo) and tls.owner is not None and tls.owner in prog.mro(r)
-            elif isinstance(v, ast.Name) and v.id == tls.name:
-                fi = m.func_of_node(n)
-                if tls.owner is None and (fi is None or v.id not in local_names(fi.node)):
-                    r = prog.resolve_global(m, v.id)
-                    hit = isinstance(r, ConstRef) and r.module is tls.module
-                elif tls.owner is not None and fi is None and m.class_of_node(n) is tls.owner:
-                    hit = True  # class-body statement `data.context = None`
-            if hit:
-                yield m.func_of_node(n), n
+    if isinstance(v, ast.Attribute) and v.attr == tls.name:
+        base = v.value
+        ch = attr_chain(base)
+        encl = m.class_of_node(at)
+        if ch is not None:
+            if ch[-1] in ("self", "cls") and encl is not None and tls.owner is not None and tls.owner in prog.mro(encl):
+                return True
+            if tls.owner is not None and ch[-1] == tls.owner.name:
+                return True
+            r = prog.resolve_class_expr(m, base, encl)
+            return isinstance(r, ClassInfo) and tls.owner is not None and tls.owner in prog.mro(r)
+        return False
+    if isinstance(v, ast.Name):
+        fi = m.func_of_node(at)
+        if v.id == tls.name:
+            if tls.owner is None and (fi is None or v.id not in local_names(fi.node)):
+                r = prog.resolve_global(m, v.id)
+                return isinstance(r, ConstRef) and r.module is tls.module
+            if tls.owner is not None and fi is None and m.class_of_node(at) is tls.owner:
+                return True  # class-body statement `data.context = None`
+        # local alias:  data = cls.Context.data
+        if fi is not None and v.id in local_names(fi.node):
+            for n in walk_no_nested(fi.node):
+                if isinstance(n, ast.Assign) and len(n.targets) == 1 and isinstance(n.targets[0], ast.Name) and \
+                        n.targets[0].id == v.id and not isinstance(n.value, ast.Name):
+                    if _denotes_tls(ctx, m, n.value, tls, n):
+                        return True
+    return False
+
+
+def _tls_attr_accesses(ctx: Ctx, tls: TlsObject):
+    """Yield (FuncInfo|None, Attribute node) for every ``<tls object>.<attr>`` access in the package."""
+    cache = ctx.__dict__.setdefault("_tls_acc_cache", {})
+    k = id(tls.node), tls.name
+    if k not in cache:
+        out = []
+        for m in ctx.prog.pkg_modules():
+            for n in ast.walk(m.tree):
+                if isinstance(n, ast.Attribute) and _denotes_tls(ctx, m, n.value, tls, n):
+                    out.append((m.func_of_node(n), n))
+        cache[k] = out
+    return cache[k]
 
 
 def rule_tls1(ctx: Ctx) -> RuleResult:
@@ -100,11 +114,24 @@ def rule_tls1(ctx: Ctx) -> RuleResult:
                             for t in (n.targets if isinstance(n, ast.Assign) else [n.target]):
                                 if isinstance(t, ast.Attribute) and isinstance(t.value, ast.Name) and t.value.id == "self":
                                     everywhere.add(t.attr)
+        slotted: Set[str] = set()
+        if tls.inst_cls is not None:
+            for k in ctx.prog.mro(tls.inst_cls):
+                sl = k.assigns.get("__slots__")
+                if sl is not None:
+                    slotted |= {e.value for e in ast.walk(sl) if isinstance(e, ast.Constant) and isinstance(e.value, str)}
+        everywhere -= slotted
         for fi, acc in _tls_attr_accesses(ctx, tls):
             if not isinstance(acc.ctx, ast.Load):
                 continue
             rr.instances += 1
             where = fi.qualname if fi else tls.module.qual_of_node(acc)
+            if acc.attr in slotted:
+                rr.ob(tls.module.relpath if fi is None else fi.relpath, where, norm(acc),
+                      f"`{acc.attr}` is per-thread state", VIOLATED,
+                      f"`{acc.attr}` is declared in __slots__ of the threading.local subclass {tls.inst_cls.qualname}: "
+                      f"slot descriptors live on the shared object, so the value is common to all threads", acc.lineno)
+                continue
             rel = tls.module.relpath if fi is None else fi.relpath
             st = f"read of thread-local attribute `{acc.attr}` must not depend on a write made by another thread"
             if acc.attr in everywhere:
@@ -160,12 +187,81 @@ def _context_classes(ctx: Ctx, tls_objs) -> List[ClassInfo]:
     return out
 
 
+
+def _generator_cms(ctx: Ctx, tls_objs) -> List[FuncInfo]:
+    """Functions decorated with contextlib.contextmanager that write a thread-local attribute."""
+    out = []
+    for f in ctx.prog.all_funcs():
+        if not any(d.split(".")[-1] in ("contextmanager", "asynccontextmanager") for d in f.decorators):
+            continue
+        for tls in tls_objs:
+            if any(fi is f and isinstance(acc.ctx, ast.Store) for fi, acc in _tls_attr_accesses(ctx, tls)):
+                out.append(f)
+                break
+    return out
+
+
+def _check_generator_cm(ctx: Ctx, rr: RuleResult, f: FuncInfo, tls_objs):
+    mod = f.module
+    yields = [n for n in walk_no_nested(f.node) if isinstance(n, (ast.Yield, ast.YieldFrom))]
+    for tls in tls_objs:
+        writes = [acc for fi, acc in _tls_attr_accesses(ctx, tls) if fi is f and isinstance(acc.ctx, ast.Store)]
+        if not writes or not yields:
+            continue
+        y = yields[0]
+        before = [w for w in writes if w.lineno <= y.lineno]
+        after = [w for w in writes if w.lineno > y.lineno]
+        rr.instances += 1
+        # previous value saved in a local before/at the overwrite
+        saved = None
+        for n in walk_no_nested(f.node):
+            if isinstance(n, ast.Assign) and n.lineno <= y.lineno:
+                tg = n.targets[0]
+                tgs = tg.elts if isinstance(tg, ast.Tuple) else [tg]
+                vals = n.value.elts if isinstance(n.value, ast.Tuple) and isinstance(tg, ast.Tuple) else [n.value]
+                for t, v in zip(tgs, vals):
+                    if isinstance(t, ast.Name) and isinstance(v, ast.Attribute) and any(
+                            v is acc for _, acc in _tls_attr_accesses(ctx, tls)):
+                        saved = t.id
+        rr.ob(f.relpath, f.qualname, norm(before[0]) if before else "overwrite", "the previous context is saved "
+              "before it is overwritten", DISCHARGED if saved and before else VIOLATED,
+              f"saved in local `{saved}`" if saved else "no local holds the previous value", f.node.lineno)
+        rr.instances += 1
+        ok = False
+        why = "no assignment restores the saved value after the yield"
+        for w in after:
+            st = mod.parents.get(w)
+            while st is not None and not isinstance(st, ast.stmt):
+                st = mod.parents.get(st)
+            restores_saved = isinstance(st, ast.Assign) and saved and norm(st.value) == saved
+            in_finally = False
+            p = mod.parents.get(st)
+            while p is not None and p is not f.node:
+                if isinstance(p, ast.Try) and any(st is x or any(st is z for z in ast.walk(x)) for x in p.finalbody) \
+                        and any(y is z for b in p.body for z in ast.walk(b)):
+                    in_finally = True
+                p = mod.parents.get(p)
+            if restores_saved and in_finally:
+                ok = True
+            elif restores_saved:
+                why = ("the restoring assignment follows a bare `yield`: when the with-body raises, the generator is "
+                       "thrown into at the yield and the restore is skipped (needs try/finally)")
+        rr.ob(f.relpath, f.qualname, "restore after yield", "the saved context is assigned back on every exit of the "
+              "with-body, normal or exceptional", DISCHARGED if ok else VIOLATED,
+              "restore sits in the finally of a try around the yield" if ok else why, y.lineno)
+
+
 def rule_ctx1(ctx: Ctx) -> RuleResult:
     rr = RuleResult("CTX-1", "the reference context is saved on enter and restored on every exit", floor=4)
     tls_objs = find_tls_objects(ctx)
     cms = _context_classes(ctx, tls_objs)
-    if not cms:
-        raise AnalysisError("CTX-1: no context-manager class found")
+    gcms = _generator_cms(ctx, tls_objs)
+    if not cms and not gcms:
+        raise AnalysisError("CTX-1: no context manager for the thread-local context found")
+    for g in gcms:
+        rr.analysed.append(g.key + " (generator-based)")
+        _check_generator_cm(ctx, rr, g, tls_objs)
+    gnames = {g.qualname for g in gcms}
     for tls in tls_objs:
         writers: Dict[str, List[ast.Attribute]] = {}
         for fi, acc in _tls_attr_accesses(ctx, tls):
@@ -174,7 +270,7 @@ def rule_ctx1(ctx: Ctx) -> RuleResult:
                 writers.setdefault(q, []).append(acc)
         for q, accs in sorted(writers.items()):
             rr.instances += 1
-            allowed_fn = q.endswith(".__enter__") or q.endswith(".__exit__") or q.endswith(".<body>") or q == "<module>" \
+            allowed_fn = q in gnames or q.endswith(".__enter__") or q.endswith(".__exit__") or q.endswith(".<body>") or q == "<module>" \
                 or (tls.inst_cls is not None and q.startswith(tls.inst_cls.qualname + "."))
             rr.ob(tls.module.relpath, q, norm(accs[0]),
                   "the thread-local context is written only by the context manager's __enter__/__exit__ "
@@ -245,7 +341,7 @@ def rule_ctx1(ctx: Ctx) -> RuleResult:
 
 def _factories(ctx: Ctx, cms: List[ClassInfo]) -> Tuple[Set, Set[FuncInfo]]:
     """Functions that return a fresh context manager instance (inject -> Context(...))."""
-    fac: Set[FuncInfo] = set()
+    fac: Set[FuncInfo] = set(_generator_cms(ctx, find_tls_objects(ctx)))
     changed = True
     while changed:
         changed = False
@@ -471,15 +567,21 @@ def rule_glob1(ctx: Ctx) -> RuleResult:
             rr.instances += 1
             st = "library code keeps no state beyond the objects passed to it"
             text = w.path + (f" -> {w.via}" if w.via else "")
-            if in_cone:
-                rr.ob(f.relpath, f.qualname, text, st, VIOLATED,
-                      bad + "; reachable from the library entry points, so one generation can influence the next",
-                      w.line)
-            else:
+            by_design = (not in_cone) and root.startswith("global:") and root.endswith(".registry") and \
+                w.kind in ("selfmut-call", "parammut-call")
+            if not in_cone and f not in ctx.cli_cone:
+                rr.ob(f.relpath, f.qualname, text, st, ALLOWED,
+                      bad + " - but the function is reachable neither from a library entry point nor from main "
+                            "(unused helper)", w.line)
+            elif by_design:
                 controls += 1
                 rr.ob(f.relpath, f.qualname, text, st, ALLOWED,
                       bad + " - CLI-only function (not reachable from any library entry point): the command line "
-                            "configures the default registry for its own process by design", w.line)
+                            "configures the default string-type registry for its own process by design", w.line)
+            else:
+                rr.ob(f.relpath, f.qualname, text, st, VIOLATED,
+                      bad + ("; reachable from the library entry points, so one generation can influence the next"
+                             if in_cone else "; state shared between Cli objects / runs in one process"), w.line)
     # import-time decorator applications (registry.add()) are module initialisation, executed once per process
     if controls < 2:
         raise AnalysisError(f"GLOB-1 positive control failed: expected the CLI's writes to the default string-type "
@@ -501,10 +603,51 @@ def rule_glob1(ctx: Ctx) -> RuleResult:
                                 rr.instances += 1
                                 st = f"class-level mutable `{c.qualname}.{name}` is only read or copied on library paths"
                                 if isinstance(par, ast.Call) and n in par.args and norm(par.func) in (
-                                        "copy.deepcopy", "deepcopy", "dict", "list", "copy.copy"):
-                                    rr.ob(g.relpath, g.qualname, norm(par), st, DISCHARGED,
-                                          "flows into a copy" + (" (deep)" if "deepcopy" in norm(par.func) else
-                                                                 " (shallow: nested dicts stay shared)"), n.lineno)
+                                        "copy.deepcopy", "deepcopy", "dict", "list", "copy.copy", "copy"):
+                                    deep = "deepcopy" in norm(par.func)
+                                    nested_mut = any(_is_mutable_value(x) for x in ast.walk(v) if x is not v)
+                                    bad_w = None
+                                    if not deep and nested_mut:
+                                        # which local holds the shallow copy, and is an inner object written through it?
+                                        asg = g.module.parents.get(par)
+                                        if isinstance(asg, (ast.Assign, ast.AnnAssign)):
+                                            tg = asg.targets[0] if isinstance(asg, ast.Assign) else asg.target
+                                            tname = norm(tg)
+                                            for w in ef.direct_writes(g):
+                                                pth = w.path
+                                                if not pth.startswith(tname + "["):
+                                                    continue
+                                                depth_sub = 0
+                                                node_t = None
+                                                if isinstance(w.node, (ast.Assign, ast.AugAssign, ast.AnnAssign, ast.Delete)):
+                                                    tgts = w.node.targets if isinstance(w.node, (ast.Assign, ast.Delete)) else [w.node.target]
+                                                    for t in tgts:
+                                                        x = t
+                                                        d = 0
+                                                        while isinstance(x, ast.Subscript):
+                                                            d += 1
+                                                            x = x.value
+                                                        if norm(x) == tname:
+                                                            depth_sub = max(depth_sub, d)
+                                                elif isinstance(w.node, ast.Call) and isinstance(w.node.func, ast.Attribute):
+                                                    x = w.node.func.value
+                                                    d = 0
+                                                    while isinstance(x, ast.Subscript):
+                                                        d += 1
+                                                        x = x.value
+                                                    if norm(x) == tname:
+                                                        depth_sub = d + 1
+                                                if depth_sub >= 2:
+                                                    bad_w = w
+                                    if bad_w is not None:
+                                        rr.ob(g.relpath, g.qualname, norm(par), st, VIOLATED,
+                                              f"only a shallow copy is taken, and `{bad_w.path}` (line {bad_w.line}) then "
+                                              f"writes into an inner object that is still the class-level one: the value "
+                                              f"leaks to every other generator of the class family", n.lineno)
+                                    else:
+                                        rr.ob(g.relpath, g.qualname, norm(par), st, DISCHARGED,
+                                              "flows into a deep copy" if deep else
+                                              "flows into a shallow copy whose inner objects are not written here", n.lineno)
                                 elif isinstance(par, ast.Assign) or (isinstance(par, ast.Call) and n in par.args):
                                     # assigned to a name / passed on: the alias may be mutated later
                                     alias_mut = False
